@@ -6,6 +6,7 @@ package main
 // "fence" request; the EVENT messages it receives before the fence's response are what the step caused.
 
 import (
+	"errors"
 	"bytes"
 	"encoding/json"
 	"fmt"
@@ -611,9 +612,56 @@ func c10DuringResponse(c *Ctx) {
 			time.Sleep(50 * time.Microsecond)
 		}
 	}()
-	n := c.Pick(40, 600)
+	n := c.Pick(60, 600)
+	pipelined := 0
 	for k := 0; k < n; k++ {
-		m, err := cl.Do("GET", "/accessories", "", nil)
+		if k%6 == 4 {
+			// a second pair-verify through the encrypted connection while the events keep coming: the answer of the finish
+			// under the old session, every event after it under the new one
+			cl.rekeying = true
+			vr2 := refPairVerify(r, cl.Post(), ident, sr.AccLTPK)
+			if vr2.Shared == nil {
+				close(stop)
+				c.Violate("a pair-verify on an encrypted connection that is subscribed to a changing characteristic fails (an EVENT met the hand-over of the session)", id,
+					map[string]interface{}{"request": k, "local_changes_so_far": atomic.LoadInt64(&toggles)}, "verified", vr2.ErrAt+" "+cl.broken)
+				return
+			}
+			cl.Upgrade(vr2.Shared)
+			if cl.broken != "" {
+				close(stop)
+				c.Violate("after a pair-verify on an encrypted, subscribed connection the controller cannot decrypt what the accessory sends (an EVENT met the hand-over of the session)", id,
+					map[string]interface{}{"request": k, "local_changes_so_far": atomic.LoadInt64(&toggles)}, "frames under the new session from the answer on", cl.broken)
+				return
+			}
+		}
+		var m *refMsg
+		var err error
+		if k%2 == 1 {
+			// two requests in ONE frame (a controller that does not wait): the second answer is as large as the first
+			req := "GET /accessories HTTP/1.1\r\nHost: acc.local\r\n\r\n"
+			cl.conn.Write(cl.sess.Encrypt([]byte(req + req)))
+			for got := 0; got < 2 && err == nil; {
+				var x *refMsg
+				if x, err = cl.next(cl.timeout); err == nil && x == nil {
+					err = errors.New("timeout waiting for the answers to two requests sent in one frame")
+				}
+				if x != nil && x.Event {
+					cl.Events = append(cl.Events, *x)
+				} else if x != nil {
+					got++
+					m = x
+					var p2 struct {
+						Accessories []json.RawMessage `json:"accessories"`
+					}
+					if x.Status != 200 || json.Unmarshal(bytes.TrimSpace(x.Body), &p2) != nil || len(p2.Accessories) != 41 {
+						err = fmt.Errorf("answer %d of 2: status %d, %d body bytes", got, x.Status, len(x.Body))
+					}
+				}
+			}
+			pipelined++
+		} else {
+			m, err = cl.Do("GET", "/accessories", "", nil)
+		}
 		var parsed struct {
 			Accessories []json.RawMessage `json:"accessories"`
 		}
